@@ -146,6 +146,24 @@ def check_tables(run: Run, rows: dict, ex, jnp, session: str):
             bad("wrap_bc")
 
 
+def check_grids(run: Run, ex, session: str, tier: str):
+    """x_j = j L / N, exactly N points (left-inclusive, right-exclusive), for a dense set of (N, L)."""
+    Ls = (1.0, 2 * np.pi, 3.0, 4.0, 5.0, 10.0, 100.0, 0.37, 2.5)
+    for D, Ns in ((1, range(3, 257 if tier == "quick" else 1025)), (2, (3, 4, 7, 16, 49, 61, 98, 122)), (3, (3, 4, 5, 8, 29))):
+        for N in Ns:
+            for L in Ls:
+                run.case(("grid", D, N, L), nontrivial=False)
+                for full in (False, True):
+                    g = np.asarray(ex.make_grid(D, L, N, full=full))
+                    n = N + 1 if full else N
+                    ax = np.arange(n) * (L / N)
+                    want = np.stack(np.meshgrid(*([ax] * D), indexing="ij"))
+                    tol = (1e-12 if session == "x64" else 1e-5) * L
+                    if g.shape != want.shape or maxabs(g - want) > tol:
+                        run.violation({"kind": "make_grid", "D": D, "N": N, "L": L, "full": full, "session": session},
+                                      {"shape": list(g.shape)})
+
+
 def check_unit_ifft(run: Run, rows: dict, ex, jnp, session: str, tol: float):
     for (D, N), tab in sorted(rows.items()):
         if N ** D > 4096:
@@ -256,6 +274,7 @@ def run(tier: str, seed: int) -> int:
     session = "x64" if x64 else "f32"
     tol = 1e-10 if x64 else 3e-5
     check_tables(run_, rows, ex, jnp, session)
+    check_grids(run_, ex, session, tier)
     check_unit_ifft(run_, rows, ex, jnp, session, tol)
     check_basis(run_, ffts, rows, ex, jnp, rng, session, tol)
     check_roundtrip_random(run_, ex, jnp, rng, session, tol)
